@@ -1,6 +1,6 @@
 #!/bin/bash
-# usage: tools/confirm_seed.sh <Cxx> <k>   -- confirms one seeded change in a scratch worktree of /repo's HEAD and runs the property's check against it
-P=$1; K=$2; SRC=/tmp/seedout/$P/$K; WT=/tmp/confirm/${P}_$K; OUT=/verif/seeded/$P-$K
+# usage: tools/confirm_seed.sh <Cxx> <k> [source root=/tmp/seedout] [index under /verif/seeded]   -- confirms one seeded change in a scratch worktree of /repo's HEAD and runs the property's check against it
+P=$1; K=$2; ROOT=${3:-/tmp/seedout}; OK=${4:-$K}; SRC=$ROOT/$P/$K; WT=/tmp/confirm/${P}_$OK; OUT=/verif/seeded/$P-$OK
 mkdir -p /tmp/confirm $OUT; rm -rf $WT; git -C /repo worktree prune
 git -C /repo worktree add --detach $WT HEAD -q || exit 9
 cp $SRC/patch.diff $OUT/patch.diff; DEMO=$(ls $SRC/demo*.py | head -1); cp $DEMO $OUT/; cp $SRC/notes.md $OUT/notes.md 2>/dev/null
@@ -19,10 +19,10 @@ import json,re
 log=open('$OUT/check.log').read() if $D!=-1 else ''
 viol=[l for l in log.splitlines() if l.startswith('VIOLATION')]
 obl=[l.strip() for l in log.splitlines() if l.strip().startswith('obligation ')]
-meta=dict(property='$P',change=$K,patch_applies_to_current_repo_head=('$APPLIES'=='true'),demo_exit_on_unchanged_tree=$A,demo_exit_with_patch=$B,
+meta=dict(property='$P',change=$OK,patch_applies_to_current_repo_head=('$APPLIES'=='true'),demo_exit_on_unchanged_tree=$A,demo_exit_with_patch=$B,
   existing_suite_with_patch=('broken: 0' if $C==0 else ('not run' if $C==-1 else 'BROKEN TESTS (see suite.log)')),
   check_cmd='REPO=<scratch worktree with the patch> ./check $P --tier quick',check_exit=$D,detected=bool(viol),violation_lines=viol[:3],failed_obligations=obl[:3],
   needs=open('$OUT/notes.md').read()[:1500] if __import__('os').path.exists('$OUT/notes.md') else '')
 json.dump(meta,open('$OUT/meta.json','w'),indent=1)
-print('$P-$K','applies=$APPLIES','demo',$A,$B,'suite',$C,'check',$D,'detected',bool(viol))
+print('$P-$OK','applies=$APPLIES','demo',$A,$B,'suite',$C,'check',$D,'detected',bool(viol))
 PY
